@@ -6,7 +6,7 @@ use std::result::Result;
 use std::hash::Hasher;
 
 #[derive(Clone, Debug, PartialEq, Eq, Hash)]
-pub enum Op { Src, Buffer, Size, Rope, Writer(usize), Stream(bool, bool), Map(bool), Hash, Eq(usize), CloneCheck }
+pub enum Op { Src, Buffer, Size, Rope, Writer(usize), Stream(bool, bool), Map(bool), Hash, Eq(usize), CloneCheck, CustomStream(bool, bool) }
 
 #[derive(Clone, Debug, PartialEq, Eq, Hash)]
 pub enum Out {
@@ -64,6 +64,7 @@ pub fn run_op_impl(s: &(dyn Source + 'static), op: &Op) -> Out {
     Op::Map(c) => Out::Map(s.map(&MapOptions::new(*c)).map(|m| SMapT::of(&m))),
     Op::Hash => Out::Calls(rec_calls(s)),
     Op::Eq(_) => Out::Bad("Eq needs two trees".into()),
+    Op::CustomStream(..) => Out::Bad("CustomStream needs the case tree".into()),
     Op::CloneCheck => {
       let c: Box<dyn Source> = dyn_clone::clone_box(s);
       let eq = (c.as_ref() == s) as u64;
@@ -89,6 +90,7 @@ pub fn op_proto(name: &str, op: &Op) -> String {
     Op::Hash => format!("feed {name} 0"),
     Op::Eq(j) => format!("eq {name} A{j}"),
     Op::CloneCheck => format!("clonecheck {name}"),
+    Op::CustomStream(c, f) => format!("stream {name} {} {}", b(c), b(f)),
   }
 }
 
@@ -101,7 +103,7 @@ pub fn parse_out(op: &Op, resp: &str) -> Out {
     Op::Size | Op::Eq(_) | Op::CloneCheck => Out::Num(t.num()?),
     Op::Rope => match t.tok()? { "ok" => Out::Rope(Some(t.bytes()?)), _ => Out::Panic("charboundary: model".into()) },
     Op::Writer(_) => { let ok = t.num()? == 1; Out::Writer(ok, t.bytes()?) }
-    Op::Stream(..) => Out::Stream(t.sres()?),
+    Op::Stream(..) | Op::CustomStream(..) => Out::Stream(t.sres()?),
     Op::Map(_) => Out::Map(t.opt(|t| t.smap())?),
   }))();
   match r { Ok(o) => o, Err(e) => Out::Bad(format!("{e}: {resp}")) }
@@ -123,4 +125,21 @@ pub fn run_model(d: &mut Driver, t: &T, ops: &[Op]) -> Vec<Out> {
   let resp = d.ask(&reqs);
   if resp[0] != "ok" || resp[1] != "ok" { return ops.iter().map(|_| Out::Bad(format!("tree rejected: {}", resp[1]))).collect() }
   ops.iter().zip(resp[2..].iter()).map(|(op, r)| parse_out(op, r)).collect()
+}
+
+/// a user-defined source served through the public default streaming helper (C08)
+#[derive(Clone, Debug, PartialEq, Eq, Hash)]
+pub struct Custom { pub text: String, pub map: Option<SourceMap> }
+impl Source for Custom {
+  fn source(&self) -> std::borrow::Cow<str> { std::borrow::Cow::Borrowed(&self.text) }
+  fn rope(&self) -> Rope<'_> { Rope::from(&self.text) }
+  fn buffer(&self) -> std::borrow::Cow<[u8]> { std::borrow::Cow::Borrowed(self.text.as_bytes()) }
+  fn size(&self) -> usize { self.text.len() }
+  fn map(&self, _: &MapOptions) -> Option<SourceMap> { self.map.clone() }
+  fn to_writer(&self, w: &mut dyn std::io::Write) -> std::io::Result<()> { w.write_all(self.text.as_bytes()) }
+}
+impl rspack_sources::stream_chunks::StreamChunks for Custom {
+  fn stream_chunks<'a>(&'a self, options: &MapOptions, on_chunk: rspack_sources::stream_chunks::OnChunk<'_, 'a>, on_source: rspack_sources::stream_chunks::OnSource<'_, 'a>, on_name: rspack_sources::stream_chunks::OnName<'_, 'a>) -> rspack_sources::stream_chunks::GeneratedInfo {
+    rspack_sources::stream_chunks::stream_chunks_default(self.text.as_str(), self.map.as_ref(), options, on_chunk, on_source, on_name)
+  }
 }
